@@ -774,15 +774,39 @@ class SamplingMethod(DirectMethod):
     def get_signals_at(self, stage, k=-1):
         return veccat(*[e.sampled[k] for e in self.signals.values()])
 
-    def get_p_sys(self, stage, k, include_signals=True):
-        args = [vvcat(self.P),
+    def split_signals(self, stage, values):
+        """Rows of `values` follow self.signals (incl. derivative signals); pick the B-spline
+        parameters and variables of the stage, in the order of stage.p and stage.v"""
+        rows = HashDict()
+        offset = 0
+        for s in self.signals.keys():
+            rows[s] = values[offset:offset+s.numel(),:]
+            offset += s.numel()
+        empty = MX(0, values.shape[1])
+        sig_p = vcat([rows[s] for s in stage.parameters['bspline']]) if stage.parameters['bspline'] else empty
+        sig_v = vcat([rows[s] for s in stage.variables['bspline']]) if stage.variables['bspline'] else empty
+        return sig_p, sig_v
+
+    def get_p_sys(self, stage, k, include_signals=True, signals=None):
+        """Parameter vector of the system function: laid out like vertcat(stage.p, stage.v)
+
+        signals: optional values of all signals (rows as in self.signals), one column per evaluation point
+        """
+        args_p = [vvcat(self.P),
                 self.get_p_control_at(stage, k),
-                self.get_p_control_plus_at(stage, k),
-                self.V, self.get_v_control_at(stage, k),
+                self.get_p_control_plus_at(stage, k)]
+        args_v = [self.V, self.get_v_control_at(stage, k),
                 self.get_v_control_plus_at(stage, k)]
-        if include_signals:
-            args.append(self.get_signals_at(stage, k))
-        return vcat(args)
+        if signals is None and include_signals:
+            signals = self.get_signals_at(stage, k)
+        if signals is None:
+            return vcat(args_p+args_v)
+        reps = signals.shape[1]
+        if reps>1:
+            args_p = [repmat(MX(e),1,reps) for e in args_p]
+            args_v = [repmat(MX(e),1,reps) for e in args_v]
+        sig_p, sig_v = self.split_signals(stage, MX(signals))
+        return vcat(args_p+[sig_p]+args_v+[sig_v])
 
     def eval(self, stage, expr):
         return stage.master._method.eval_top(stage.master,
